@@ -209,6 +209,8 @@ func runC19(c *Ctx) {
 	ruleMapInfer(c, p, "C19.mapinfer")
 	ruleForwardUnconditional(c, p, "C19.forward-always")
 	ruleLostReceiverWrite(c, p, "C19.receiver")
+	ruleReflectConst(c, p, "C19.reflect-name")
+	ruleInferNoSharedState(c, p, "C19.shared-state")
 	ruleConfigParsed(c, p, "C19.config")
 	ruleSliceOrder(c, p, "C19.slices")
 	ruleAdopt(c, p, "C19.adopt")
@@ -1558,4 +1560,165 @@ func decimalCascade(fn *ssa.Function, prec map[ssa.Value]bool) map[int]int {
 		}
 	}
 	return out
+}
+
+// ruleReflectConst (C19 / C06): reflection by name uses names the library wrote, not names from the wire.
+func ruleReflectConst(c *Ctx, p *core.Program, rule string) {
+	c.R.Rule(rule, "every reflect.Value.MethodByName call in package proto is given a constant name: ColAuto builds Array / Nullable / LowCardinality wrappers by calling the helper of that constant name on the inferred element; a name taken from the type string (MethodByName(t.Base())) lets a type such as Row(Int8) or WithPrecision(DateTime64(3)) select an arbitrary method of the column, and calling it without its arguments panics")
+	cfg := p.Cfg.Name
+	n := 0
+	for _, fn := range p.Funcs() {
+		if pkgOf(fn) == nil || pkgOf(fn).Path() != core.PkgProto || fn.Blocks == nil {
+			continue
+		}
+		for _, call := range core.Calls(fn) {
+			f := core.CalleeFunc(call)
+			if f == nil || f.Pkg() == nil || f.Pkg().Path() != "reflect" || f.Name() != "MethodByName" {
+				continue
+			}
+			n++
+			args := call.Common().Args
+			name := args[len(args)-1]
+			key := core.CallKey(fn, call)
+			if k, ok := name.(*ssa.Const); ok && k.Value != nil {
+				c.R.Ok(rule, key, cfg, p.Pos(call.Pos()), "constant method name "+k.Value.String())
+			} else if names, ok := constArgAtCallers(p, fn, name); ok {
+				c.R.Ok(rule, key, cfg, p.Pos(call.Pos()), "name parameter of an unexported helper; every caller passes a constant: "+strings.Join(names, ", "))
+			} else {
+				c.R.Bad(rule, key, cfg, p.Pos(call.Pos()), "the method is looked up by a name computed at run time (from the type string): any exported method of the column can be selected and is then called with no arguments")
+			}
+		}
+	}
+	c.R.Count("reflect.MethodByName calls in package proto", n)
+	c.R.Floor(rule, cfg, n, 1)
+}
+
+// ruleInferNoSharedState (C19): inference is a function of the type string and the column it configures.
+func ruleInferNoSharedState(c *Ctx, p *core.Program, rule string) {
+	c.R.Rule(rule, "nothing reachable from an Infer method of package proto (static calls inside the package) writes package-level state: no store to a global, no update of a global map, no Store/LoadOrStore/Put on a package-level sync.Map or sync.Pool - a process-wide cache of parsed definitions that hands out (or remembers) a column's own maps is rewritten in place when that column is re-inferred for another type, and every later column of the cached type decodes with the other definition's names")
+	cfg := p.Cfg.Name
+	seen := map[*ssa.Function]bool{}
+	var fns []*ssa.Function
+	for _, fn := range p.Funcs() {
+		if pkgOf(fn) == nil || pkgOf(fn).Path() != core.PkgProto || fn.Name() != "Infer" || fn.Blocks == nil {
+			continue
+		}
+		for g := range core.StaticReach(fn, 3) {
+			if g.Blocks != nil && pkgOf(g) != nil && pkgOf(g).Path() == core.PkgProto && !seen[g] {
+				seen[g] = true
+				fns = append(fns, g)
+			}
+		}
+	}
+	sort.Slice(fns, func(i, j int) bool { return fns[i].Pos() < fns[j].Pos() })
+	isGlobalRoot := func(v ssa.Value) *ssa.Global {
+		for d := 0; d < 6; d++ {
+			switch x := v.(type) {
+			case *ssa.Global:
+				if x.Pkg != nil && x.Pkg.Pkg.Path() == core.PkgProto {
+					return x
+				}
+				return nil
+			case *ssa.FieldAddr:
+				v = x.X
+			case *ssa.IndexAddr:
+				v = x.X
+			case *ssa.UnOp:
+				v = x.X
+			default:
+				return nil
+			}
+		}
+		return nil
+	}
+	bad := false
+	for _, fn := range fns {
+		for _, b := range fn.Blocks {
+			for _, in := range b.Instrs {
+				var g *ssa.Global
+				what := ""
+				switch x := in.(type) {
+				case *ssa.Store:
+					g, what = isGlobalRoot(x.Addr), "stores to"
+				case *ssa.MapUpdate:
+					g, what = isGlobalRoot(x.Map), "updates the map"
+				case ssa.CallInstruction:
+					f := core.CalleeFunc(x)
+					if f != nil && f.Pkg() != nil && f.Pkg().Path() == "sync" && len(x.Common().Args) > 0 {
+						switch f.Name() {
+						case "Store", "LoadOrStore", "Swap", "CompareAndSwap", "Put", "LoadAndDelete", "Delete":
+							g, what = isGlobalRoot(x.Common().Args[0]), "calls "+f.Name()+" on"
+						}
+					}
+				}
+				if g != nil {
+					bad = true
+					c.R.Bad(rule, core.FuncName(fn)+"/"+g.Name(), cfg, p.Pos(in.Pos()), sprintf("%s %s the package-level variable %s on a path reachable from Infer: inference of one column changes what other columns (and later queries) infer", fn.Name(), what, g.Name()))
+				}
+			}
+		}
+	}
+	if !bad {
+		c.R.Ok(rule, "Infer", cfg, "", sprintf("%d functions reachable from Infer methods, none writes package-level state", len(fns)))
+	}
+	c.R.Count("functions reachable from Infer methods", len(fns))
+	c.R.Floor(rule, cfg, len(fns), 15)
+}
+
+// constArgAtCallers: v is a parameter of the unexported, non-escaping package function fn and every static
+// call of fn in the analysed packages passes a constant for it; the constants are returned.
+func constArgAtCallers(p *core.Program, fn *ssa.Function, v ssa.Value) ([]string, bool) {
+	pr, ok := v.(*ssa.Parameter)
+	if !ok || fn.Object() == nil || fn.Object().Exported() {
+		return nil, false
+	}
+	idx := -1
+	for i, q := range fn.Params {
+		if q == pr {
+			idx = i
+		}
+	}
+	if idx < 0 {
+		return nil, false
+	}
+	set := map[string]bool{}
+	calls := 0
+	for _, g := range p.Funcs() {
+		for _, b := range g.Blocks {
+			for _, in := range b.Instrs {
+				// used as a value: callers unknown
+				for _, op := range in.Operands(nil) {
+					if *op == ssa.Value(fn) {
+						if ci, isCall := in.(ssa.CallInstruction); !isCall || ci.Common().Value != ssa.Value(fn) {
+							return nil, false
+						}
+					}
+				}
+			}
+		}
+		for _, call := range core.Calls(g) {
+			if core.StaticFn(call) != fn {
+				continue
+			}
+			args := call.Common().Args
+			if idx >= len(args) {
+				return nil, false
+			}
+			k, ok := args[idx].(*ssa.Const)
+			if !ok || k.Value == nil {
+				return nil, false
+			}
+			calls++
+			set[k.Value.String()] = true
+		}
+	}
+	if calls == 0 {
+		return nil, false
+	}
+	var out []string
+	for k := range set {
+		out = append(out, k)
+	}
+	sort.Strings(out)
+	return out, true
 }
